@@ -35,6 +35,9 @@ def list_obligations(prop: str, tier: str):
 def _run_worker(prop: str, ob_id: str, tier: str, timeout: float) -> dict:
     env = dict(os.environ)
     env["PYTHONPATH"] = str(ROOT) + os.pathsep + env.get("PYTHONPATH", "")
+    if os.environ.get("VF_REPO"):
+        # analyse another checkout (seeded-change testing in a scratch worktree); default is /repo via /venv's editable install
+        env["PYTHONPATH"] = os.path.join(os.environ["VF_REPO"], "src") + os.pathsep + env["PYTHONPATH"]
     env["PYTHONHASHSEED"] = "0"
     env["OCTAVE_MCP_VERIF"] = "1"
     t0 = time.perf_counter()
@@ -125,7 +128,9 @@ def run_property(prop: str, tier: str) -> int:
 
     wall = time.perf_counter() - t_start
     evidence = build_evidence(prop, tier, seed, meta, results, n_viol, wall)
-    (ROOT / "evidence" / f"{prop}.json").write_text(json.dumps(evidence, indent=1, ensure_ascii=False) + "\n")
+    evdir = Path(os.environ.get("VF_EVIDENCE_DIR", str(ROOT / "evidence")))
+    evdir.mkdir(parents=True, exist_ok=True)
+    (evdir / f"{prop}.json").write_text(json.dumps(evidence, indent=1, ensure_ascii=False) + "\n")
 
     confirmed = sum(1 for r in results if r.get("verdict") in ("confirmed", "known"))
     print(
